@@ -72,6 +72,16 @@ pub fn gen_program(r: &mut Rng, pc: &ProgCfg) -> Vec<ModeSpec> {
             } else {
                 None
             };
+            // the same lookahead expression on several patterns of a mode, with either polarity
+            // (decided without drawing from the generator)
+            let prev = patterns.iter().rev().find_map(|q: &PatSpec| q.lookahead.clone());
+            let h = k + re.render().len() + prev.as_ref().map(|p| p.1.len()).unwrap_or(0);
+            let lookahead = match (&lookahead, prev) {
+                (Some(_), Some((ppos, text))) if h % 2 == 0 => Some((!ppos, text)),
+                (Some((pos, _)), Some((_, text))) if h % 4 == 1 => Some((*pos, text)),
+                (None, Some((ppos, text))) if pc.lookahead >= 40 && h % 4 == 2 => Some((!ppos, text)),
+                _ => lookahead,
+            };
             patterns.push(PatSpec { pattern: re.render(), tid: pool[k], lookahead });
         }
         let mut transitions = Vec::new();
